@@ -212,7 +212,16 @@ func findingProbes() []*Case {
 	ob.Reqs[0].Headers = append([]HF{{K: "User-Agent", V: "probe", Pad: " "}}, ob.Reqs[0].Headers...)
 	ob.Scripts = []Script{{Resps: []Resp{{Status: 200, Reason: "OK", Close: true, Body: Body{Kind: "cl", Data: []byte("hi")},
 		Headers: []HF{{K: "Connection", V: "close, X-Secret", Pad: " "}, {K: "X-Secret", V: "hop-by-hop", Pad: " "}, {K: "X-Resp-Id", V: "r0", Pad: " "}}}}}}
-	return []*Case{f16, f17, n1, ob}
+	// authentication enabled with an empty user list: well-formed credentials of a user that does not exist must get 407
+	nu := base()
+	nu.Auth, nu.Users, nu.Kind, nu.FirstFwd = true, nil, "probe-auth-no-users", 2
+	r0 := f17.Reqs[0]
+	r0.Headers = []HF{{K: "User-Agent", V: "probe", Pad: " "}, {K: "X-Rid", V: "0", Pad: " "}}
+	r1 := r0
+	r1.Headers = []HF{{K: "User-Agent", V: "probe", Pad: " "}, {K: "Proxy-Authorization", V: "Basic " + token(User{"hello", "world"}), Pad: " "}, {K: "X-Rid", V: "1", Pad: " "}}
+	nu.Reqs = []Req{r0, r1}
+	nu.Scripts = []Script{ok, ok}
+	return []*Case{f16, f17, n1, ob, nu}
 }
 
 func init() {
